@@ -350,3 +350,20 @@ def _m_hidden_filter(mod):
         return False
 
     return mod if replace_in_func(mod, "list_modelica_files", edit) else None
+
+
+@SPEC.mutant("_extend skips classes with the same member names", AST, "R27.7", "adopted or merged")
+def _m_extend_skip(mod):
+    def edit(fn):
+        for lp in ast.walk(fn):
+            if isinstance(lp, ast.For):
+                node = lp.body[0]
+                while isinstance(node, ast.If) and len(node.orelse) == 1 and isinstance(node.orelse[0], ast.If):
+                    node = node.orelse[0]
+                if isinstance(node, ast.If) and node.orelse:
+                    node.orelse = [ast.If(test=ast.parse("self.classes[class_name].classes.keys() != other.classes[class_name].classes.keys()", mode="eval").body,
+                                          body=node.orelse, orelse=[])]
+                    return True
+        return False
+
+    return mod if replace_in_func(mod, "Class._extend", edit) else None
